@@ -17,13 +17,14 @@ import (
 
 // Decl is one declaration in text order.
 type Decl struct {
-	Kind  string // token frag external
+	Kind  string // token frag external macro
 	Name  string // token name / external names joined by space
 	Lit   string // unique literal spelling (token, frag)
 	Emit  string // frag: token emitted
 	Mode  string // "" default
 	File  int
 	Extra string // mode action text
+	Use   string `json:",omitempty"` // token: a macro the rule ends with (NAME = 'lit' USE*), declared before or AFTER this rule
 }
 
 type Case struct {
@@ -92,6 +93,23 @@ func genCase(rt *rapid.T) *Case {
 		c.Decls = append(c.Decls, Decl{Kind: "token", Name: tokName(seq), Lit: fmt.Sprintf("<%d>", seq)})
 		toks = append(toks, tokName(seq))
 	}
+	if len(c.Decls) <= 40 && ri(rt, 0, 1, "macros") == 0 {
+		// macros at any place among the declarations of the default mode, used by tokens declared
+		// before or after them (the rules that follow a late macro are part of the same mode)
+		var ms []string
+		for k, nm := 0, ri(rt, 1, 2, "nmacro"); k < nm; k++ {
+			at := ri(rt, 0, len(c.Decls), "macroat")
+			name := fmt.Sprintf("MC%d", k)
+			d := Decl{Kind: "macro", Name: name, Lit: "~", File: ri(rt, 0, c.NFiles-1, "macrofile")}
+			c.Decls = append(c.Decls[:at], append([]Decl{d}, c.Decls[at:]...)...)
+			ms = append(ms, name)
+		}
+		for i := range c.Decls {
+			if c.Decls[i].Kind == "token" && ri(rt, 0, 2, "usemacro") == 0 {
+				c.Decls[i].Use = ms[ri(rt, 0, len(ms)-1, "which")]
+			}
+		}
+	}
 	// a mode lives in the file of its first declaration; declarations of a mode are moved to that file
 	for _, m := range c.Modes {
 		file := -1
@@ -155,7 +173,12 @@ func (c *Case) render() (files map[string]string, order []string) {
 				switch d.Kind {
 				case "token":
 					order = append(order, d.Name)
+					if d.Use != "" {
+						return fmt.Sprintf("%s = '%s' %s*", d.Name, d.Lit, d.Use)
+					}
 					return fmt.Sprintf("%s = '%s'", d.Name, d.Lit)
+				case "macro":
+					return fmt.Sprintf("@macro %s = '%s'", d.Name, d.Lit)
 				case "frag":
 					s := fmt.Sprintf("@frag '%s'", d.Lit)
 					if d.Emit != "" {
@@ -276,7 +299,7 @@ func check(c *Case, out map[string]string) string {
 		tabs[n] = m
 	}
 	for _, d := range c.Decls {
-		if d.Kind == "external" {
+		if d.Kind == "external" || d.Kind == "macro" {
 			continue
 		}
 		mn := d.Mode
@@ -474,7 +497,7 @@ func evalCompiled(run *ev.Run, cases []*Case) ([]string, error) {
 func TestC19(t *testing.T) {
 	run := ev.Start("C19")
 	defer run.Finish(t)
-	run.Rule = "specifications of 1-3 files (read in file-name order) with 2-14 declarations: tokens (names of varied legal shapes), fragments (some with @emit of any token), @external lines with 1-3 names, spread over the default mode and 0-3 named modes placed between other declarations; every token/fragment has a unique literal spelling; the parser (in any file) uses a random subset of the tokens and @external names as alternatives of the start rule; " +
+	run.Rule = "specifications of 1-3 files (read in file-name order) with 2-14 declarations: tokens (names of varied legal shapes), fragments (some with @emit of any token), @external lines with 1-3 names, spread over the default mode and 0-3 named modes placed between other declarations; every token/fragment has a unique literal spelling; half of the smaller specifications declare 1-2 macros at any place (any file), used by tokens declared before or after them; the parser (in any file) uses a random subset of the tokens and @external names as alternatives of the start rule; " +
 		"oracle: constants of base.gen.go (evaluated with go/types) are exactly EOF=0, ERROR=1 and the declared names numbered 2.. in text order; the _TokenToString switch maps each to its name and everything else to \"???\" (a sample is compiled and called for every value in [-1,n+1]); the decoded lexer table of the declaring mode accepts each unique spelling with the constant of its token / @emit target; the decoded _actions row of state 0 is keyed by exactly the constants of the parser's tokens and the follow-up states reduce on key 0 (EOF); " +
 		"non-trivial = spec with a token inside a mode, an @external before a token, an @emit and >=2 files; distinct by file texts"
 	run.Assumptions = []string{"files are processed in file-name order (filepath.Glob)", "the parser may refer to lexer tokens and to @external names alike"}
